@@ -497,12 +497,19 @@ fn traces(sc: &Scenario, depth: usize) -> Vec<Vec<Op>>
 
 pub fn run_realfs(rep: &mut Report, tier: &str)
 {
+    // S10: targets inside a sub-directory; S13: contents that are not UTF-8; S18: zero-byte files
+    let mut scs = vec![crate::scen::s6_exec(), crate::scen::s1_chain(), crate::scen::s3_multi(), crate::scen::s10_bundle(), crate::scen::s13_binary(), crate::scen::s18_empty()];
+    if tier == "thorough" { scs.push(crate::scen::s4_twins()); }
+    run_realfs_for(rep, tier, "C10", scs);
+}
+
+/// The same replays under another property's name (C20: the status lines the real binary prints —
+/// `StandardPrinter` exists only there — against the model's, step by step).
+pub fn run_realfs_for(rep: &mut Report, tier: &str, prop: &str, scs: Vec<Scenario>)
+{
     let bin = match build_real_binary() { Ok(b) => b, Err(e) => { rep.machinery(e); return; } };
     let thorough = tier == "thorough";
     let depth = if thorough { 4 } else { 3 };
-    // S10: targets inside a sub-directory; S13: contents that are not UTF-8; S18: zero-byte files
-    let mut scs = vec![crate::scen::s6_exec(), crate::scen::s1_chain(), crate::scen::s3_multi(), crate::scen::s10_bundle(), crate::scen::s13_binary(), crate::scen::s18_empty()];
-    if thorough { scs.push(crate::scen::s4_twins()); }
     // keep only leaf traces: a trace that is a proper prefix of another is covered by it step by step
     let mut total = 0u64;
     let mut steps = 0u64;
@@ -563,8 +570,8 @@ pub fn run_realfs(rep: &mut Report, tier: &str)
             if !seen.insert(class.clone()) { continue; }
             rep.violation(Violation
             {
-                property: "C10".into(),
-                signature: format!("C10:realfs:{}:{}", sc.name, class),
+                property: prop.to_string(),
+                signature: format!("{}:realfs:{}:{}", prop, sc.name, class),
                 summary: format!("real binary disagrees with the model on [{}]: {}", hist::ops_short(ops), msg),
                 replay: json!({"engine": "realfs", "scenario": sc.name, "ops": ops}),
             });
